@@ -9,7 +9,7 @@ from .. import core
 
 THEOREMS = ['Pk.C14.C14_economy', 'Pk.C14.C14_rank_rule', 'Pk.C14.C14_cutoff', 'Pk.C14.C14_cutoff_count', 'Pk.C14.C14_cutoff_le',
             'Pk.C14.C14_slices_consistent', 'Pk.C14.C14_rank_zero_raises', 'Pk.C14.C14_validation',
-            'Pk.C14.C14_kept_orthonormal', 'Pk.C14.C14_residual']
+            'Pk.C14.C14_kept_orthonormal', 'Pk.C14.C14_residual', 'Pk.C14.C14_best_frobenius', 'Pk.C14.C14_best_spectral', 'Pk.C14.C14_svd_exists']
 METHODS = ['economy', 'rank', 'cutoff', 'known_noise', 'unknown_noise', 'bogus']
 
 
